@@ -253,3 +253,42 @@ package core
 //@   keeps big
 //@ func BlockChain.GetHeaderByNumber
 //@   keeps big
+
+// ---- transaction pool admission (C15) -----------------------------------------------------------
+// A transaction that validateTx admits is within the block gas limit, non-negative, signed,
+// not below the sender's chain nonce, affordable (price*gas + value <= balance) and, unless
+// local, priced at or above the pool's minimum.
+//@ macro txcost(tx) = big(tx.data.Price) * U(tx.data.GasLimit) + big(tx.data.Amount)
+//@ func TxPool.validateTx
+//@   requires pool != nil && tx != nil && pool.currentState != nil && pool.gasPrice != nil && pool.locals != nil
+//@   requires tx.data.Price != nil && tx.data.Amount != nil
+//@   ensures[C15] @limits result == nil ==> tx.data.GasLimit <= pool.currentMaxGas && big(tx.data.Amount) >= 0
+//@   ensures[C15] @signed result == nil ==> txsenderok(pool.signer, tx)
+//@   ensures[C15] @nonce result == nil ==> st_nonce(pool.currentState, txsender(pool.signer, tx)) <= tx.data.AccountNonce
+//@   ensures[C15] @funds result == nil ==> txcost(tx) <= st_balance(pool.currentState, txsender(pool.signer, tx))
+//@   ensures[C15] @price result == nil ==> local || has(pool.locals.accounts, txsender(pool.signer, tx)) || big(pool.gasPrice) <= big(tx.data.Price)
+//@   nopanic[C15]
+
+// One transaction per nonce: the nonce-keyed map holds the new transaction under its own nonce
+// and every other entry is unchanged.
+//@ func txSortedMap.Put
+//@   requires m != nil && m.items != nil && tx != nil
+//@   ensures[C15] @put has(m.items, tx.data.AccountNonce) && m.items[tx.data.AccountNonce] == tx
+//@   ensures[C15] @others forall k uint64 :: k != tx.data.AccountNonce ==> m.items[k] == old(m.items[k]) && has(m.items, k) == old(has(m.items, k))
+//@   nopanic[C15]
+
+// Same-nonce replacement only with the configured price bump: the new transaction is accepted
+// exactly when there is no transaction with that nonce, or its price is strictly higher than the
+// old one's and at least old*(100+bump)/100; on refusal the list is unchanged.
+//@ func txList.Add
+//@   requires l != nil && l.txs != nil && l.txs.items != nil && l.costcap != nil && tx != nil && tx.data.Price != nil && tx.data.Amount != nil
+//@   requires priceBump <= 1000000000
+//@   requires forall k uint64 :: l.txs.items[k] != nil ==> l.txs.items[k].data.Price != nil
+//@   ensures[C15] @bump result0 <==> (old(l.txs.items[tx.data.AccountNonce]) == nil
+//@     || (old(big(l.txs.items[tx.data.AccountNonce].data.Price)) < big(tx.data.Price)
+//@         && (old(big(l.txs.items[tx.data.AccountNonce].data.Price)) * S(100 + int64(priceBump))) / 100 <= big(tx.data.Price)))
+//@   ensures[C15] @replace result0 ==> l.txs.items[tx.data.AccountNonce] == tx && result1 == old(l.txs.items[tx.data.AccountNonce])
+//@   ensures[C15] @refuse !result0 ==> result1 == nil && l.txs.items[tx.data.AccountNonce] == old(l.txs.items[tx.data.AccountNonce])
+//@   ensures[C15] @others forall k uint64 :: k != tx.data.AccountNonce ==> l.txs.items[k] == old(l.txs.items[k])
+//@   ensures[C15] @caps result0 ==> txcost(tx) <= big(l.costcap) && tx.data.GasLimit <= l.gascap
+//@   nopanic[C15]
